@@ -111,7 +111,8 @@ def _split_tuple(st):
             # a call on the right-hand side could read anything the earlier targets changed
             if stored and any(isinstance(n, ast.Call) for n in ast.walk(v)):
                 return None
-            if any(paths_overlap(s, r) for s in stored for r in reads):
+            # a later element must not read what an earlier target has just stored (the stored path or something below it)
+            if any(r == s or r.startswith(s + ".") or r.startswith(s + "[") for s in stored for r in reads):
                 return None
             p = access_path(t)
             if p is None:
